@@ -1169,6 +1169,12 @@ impl State {
                 let e = self
                     .dict_entry(&name)
                     .ok_or_else(|| Xerr::UnknownWord(name.clone()))?;
+                if let Entry::Function { immediate: true, .. } = e {
+                    // a build-time word works on the source being read: it is run by the
+                    // builder only, never as an instruction of the program
+                    let msg = xeh_xstr!("late word resolves to a build-time word");
+                    return Err(Xerr::ErrorMsg(msg));
+                }
                 if self.ctx.mode == ContextMode::MetaEval {
                     // what a meta block sees goes away with it: bind for this call only
                     let op = match e {
